@@ -35,3 +35,33 @@ Theorem const_repr_keeps_rank_of_singleton : forall d x,
   const_repr true d [1] [x] = Some (LList d [x]) /\ const_repr true d [] [x] = Some (LScalar d x) /\
   literal_dims (LList d [x]) <> literal_dims (LScalar d x).
 Proof. intros d x H. destruct d; try congruence; simpl; repeat split; discriminate. Qed.
+
+(* ---- the repaired rule ---------------------------------------------------------------------------------- *)
+Theorem const_repr_fx_as_read : forall ht d dims data, const_repr_fx false false ht d dims data = const_repr ht d dims data.
+Proof. intros. unfold const_repr_fx. destruct (const_repr ht d dims data); reflexivity. Qed.
+
+(* whatever the repaired rule inlines, the rule as read inlines identically: every theorem about const_repr applies *)
+Theorem const_repr_fx_sub : forall fin ne ht d dims data l,
+  const_repr_fx fin ne ht d dims data = Some l -> const_repr ht d dims data = Some l.
+Proof.
+  intros fin ne ht d dims data l H. unfold const_repr_fx in H. destruct (const_repr ht d dims data) as [l0|]; [|discriminate].
+  destruct (fin && has_nonfinite d (literal_data l0)); [discriminate|].
+  destruct (ne && match l0 with LList _ [] => true | _ => false end); [discriminate|]. exact H.
+Qed.
+
+(* with both repairs: the literal has no nan / inf element and is not the empty list *)
+Theorem const_repr_fx_printable : forall ht d dims data l,
+  const_repr_fx true true ht d dims data = Some l ->
+  has_nonfinite d (literal_data l) = false /\ (forall e, l <> LList e []).
+Proof.
+  intros ht d dims data l H. unfold const_repr_fx in H. destruct (const_repr ht d dims data) as [l0|]; [|discriminate].
+  cbn [andb] in H. destruct (has_nonfinite d (literal_data l0)) eqn:E1; [discriminate|].
+  destruct l0 as [e x|e [|x xs]]; try discriminate; inversion H; subst; (split; [exact E1|intros e' C; discriminate C]).
+Qed.
+
+(* as read, the rule inlines nan (printed as the bare name `nan`) and the empty vector (printed `[]`) *)
+Theorem const_repr_unprintable_refuted :
+  const_repr true FLOAT [] [2143289344%Z] = Some (LScalar FLOAT 2143289344%Z) /\ has_nonfinite FLOAT [2143289344%Z] = true /\
+  const_repr true FLOAT [0] [] = Some (LList FLOAT []) /\
+  const_repr_fx true true true FLOAT [] [2143289344%Z] = None /\ const_repr_fx true true true FLOAT [0] [] = None.
+Proof. vm_compute. repeat split. Qed.
